@@ -93,7 +93,7 @@ def leaders : List String :=
 def followers : List String :=
   ["=", "*=", "/=", "%=", "**=", "+=", "-=", "<<=", ">>=", ">>>=", "&=", "^=", "|=", "&&=", "||=", "??=",
    "**", "*", "/", "%", "+", "-", "<<", ">>", ">>>", "<", "<=", ">", ">=", "==", "!=", "===", "!==",
-   "&", "^", "|", "&&", "||", "??", "++", "--", "(", ")", "[", "]", ",", "?", ":", ";", "}"]
+   "&", "^", "|", "&&", "||", "??", "++", "--", "(", ")", "[", "]", ",", "?", ":", ";", "}", "?."]
 
 theorem leaders_frag : ∀ s ∈ leaders, s.toList ∈ fragPuncts := by decide
 theorem followers_frag : ∀ s ∈ followers, s.toList ∈ fragPuncts := by decide
@@ -159,8 +159,8 @@ theorem adj_leader_S (a : String) (ha : a ∈ leaders) (b : Tok) (hb : tokOk b =
       rcases hcc with h | h
       · intro e; subst e; exact absurd h (by decide)
       · subst h; decide
-    have hdot : a.toList ≠ ['.'] := by
-      have : ∀ s ∈ leaders, s.toList ≠ ['.'] := by decide
+    have hdot : a.toList ≠ ['.'] ∧ a.toList ≠ ['?', '.'] := by
+      have : ∀ s ∈ leaders, s.toList ≠ ['.'] ∧ s.toList ≠ ['?', '.'] := by decide
       exact this a ha
     simp only [adjOk, hc, plainInt, Bool.and_eq_true, Bool.or_eq_true, Bool.not_eq_true', bne_iff_ne, ne_eq]
     refine ⟨⟨⟨Or.inl (by simpa using hne), Or.inr hstar⟩, Or.inl hdot⟩, Or.inl trivial⟩
@@ -556,6 +556,47 @@ theorem piece_dot : Piece [.p "."] (fun _ => True) (fun σ => { operandPos σ wi
   Piece.single _ (by decide) _ _ (fun σ nl _ _ =>
     ⟨gcond_plain σ _ (by decide) (by decide), by rw [step_punct]; simp [stepPunct]⟩)
 
+/-- `?.` of an optional chain: like the member dot, the next name is a property name -/
+theorem piece_qdot : Piece [.p "?."] (fun _ => True) (fun σ => { operandPos σ with afterDot := true }) :=
+  Piece.single _ (by decide) _ _ (fun σ nl _ _ =>
+    ⟨gcond_plain σ _ (by decide) (by decide), by rw [step_punct]; simp [stepPunct]⟩)
+
+theorem adj_qdot_ident (s : String) (h : identOk s = true) : adjOk (.p "?.") (.ident s) = true := by
+  simp only [identOk, Bool.and_eq_true] at h
+  have hn := h.1.1.1
+  cases hs : s.toList with
+  | nil => rw [hs] at hn; simp [nameOk] at hn
+  | cons c r =>
+    rw [hs] at hn
+    have hc : isIdStart c = true := by simp [nameOk] at hn; exact hn.1
+    have hfc : firstC (.ident s) = some c := by simp [firstC, txt, tokText, hs]
+    have hne : c ∉ ext "?.".toList := by
+      intro hin
+      have := (ext_no_word _ c hin).1
+      rw [isIdPart_of_start c hc] at this; exact absurd this (by simp)
+    have hnd : c.isDigit = false := by
+      cases hd : c.isDigit with
+      | false => rfl
+      | true => rw [isIdStart_digit c hd] at hc; exact absurd hc (by simp)
+    simp only [adjOk, hfc, plainInt, Bool.and_eq_true, Bool.or_eq_true, Bool.not_eq_true', bne_iff_ne, ne_eq]
+    refine ⟨⟨⟨Or.inl (by simpa using hne), Or.inl (by decide)⟩, Or.inr hnd⟩, Or.inl trivial⟩
+
+/-- **the `?.` hazard**: `?.` directly before a digit is not the punctuator `?.` (`a?.5:1` is `a ? .5 : 1`); the
+    writer contract `adjOk` excludes every numeric token behind `?.` -/
+theorem adj_qdot_num (n : Nat) (bd : Bool) : adjOk (.p "?.") (.num n bd) = false := by
+  have hd : ∃ c, firstC (.num n bd) = some c ∧ c.isDigit = true := by
+    rcases num_shape n bd with ⟨ds, hw, hd, hne, _⟩ | ⟨ds, hw, hd, hne, _⟩ | ⟨m, z, hw, hm, hmne, _, _, _⟩
+    · cases ds with
+      | nil => exact absurd rfl hne
+      | cons c r => exact ⟨c, by simp [firstC, hw], hd c (by simp)⟩
+    · cases ds with
+      | nil => exact absurd rfl hne
+      | cons c r => exact ⟨c, by simp [firstC, hw], hd c (by simp)⟩
+    · cases m with
+      | nil => exact absurd rfl hmne
+      | cons c r => exact ⟨c, by simp [firstC, hw], hm c (by simp)⟩
+  obtain ⟨c, hc, hcd⟩ := hd
+  simp [adjOk, hc, hcd]
 
 /-! ## expressions -/
 
@@ -789,6 +830,91 @@ theorem seg_numdot (k : Nat) (n : String) (hn : identOk n = true) : Seg [.num k 
   have p2 := Piece.append p1 pid (fun σ h => trivial) (.p ".") (.ident n) rfl rfl (adj_dot_ident n hn)
   exact ⟨p2.conv (fun _ _ => trivial) (fun σ h => rfl), ⟨.num k true, rfl, rfl⟩, ⟨.ident n, rfl, rfl⟩⟩
 
+/-! ### optional links: `x ?. name`, `x ?. ( args )`, `x ?. [ y ]` -/
+
+/-- the tracker state behind `?.` written after an operand -/
+def qd (σ : St) : St := { operandPos (operandEnd σ) with afterDot := true }
+
+theorem qparen_state (σ : St) (h : σ.fnHead = none) : operandEnd (pop (operandEnd (openParen (qd σ)))) = operandEnd σ := by
+  cases σ
+  simp_all [operandEnd, pop, openParen, operandPos, push, qd]
+
+theorem qparen_state0 (σ : St) (h : σ.fnHead = none) : operandEnd (pop (openParen (qd σ))) = operandEnd σ := by
+  cases σ
+  simp_all [operandEnd, pop, openParen, operandPos, push, qd]
+
+theorem qbrack_state (σ : St) : operandEnd (pop (operandEnd (operandPos (push (qd σ) .brack)))) = operandEnd σ := by
+  cases σ
+  simp [operandEnd, pop, operandPos, push, qd]
+
+/-- an operand followed by `?.` -/
+theorem piece_q (xs : List Tok) (hx : Seg xs) : Piece (xs ++ [.p "?."]) P0 qd := by
+  obtain ⟨a, ha, haE⟩ := hx.last
+  have := Piece.append hx.piece piece_qdot (fun σ h => trivial) a (.p "?.") ha rfl
+    (adj_E_follower a haE "?." (by decide))
+  exact this.conv (fun _ h => h) (fun σ h => rfl)
+
+theorem first_q (xs : List Tok) (hx : Seg xs) (ys : List Tok) : ∃ t, (xs ++ ys).head? = some t ∧ isS t = true := by
+  obtain ⟨f, hf, hfS⟩ := hx.first
+  exact ⟨f, by rw [head?_append_ne _ _ hx.piece.ne]; exact hf, hfS⟩
+
+/-- `x ?. name` (no restriction on the last token of `x`: `5?.a` is `5` `?.` `a`) -/
+theorem seg_qdot (xs : List Tok) (n : String) (hx : Seg xs) (hn : identOk n = true) :
+    Seg (xs ++ [.p "?.", .ident n]) := by
+  obtain ⟨hok, h1, h2, hstep⟩ := ident_facts n hn
+  have pid := piece_atom (.ident n) hok hstep h1 h2
+  have p2 := Piece.append (piece_q xs hx) pid (fun σ h => trivial) (.p "?.") (.ident n) (last_snoc _ _) rfl
+    (adj_qdot_ident n hn)
+  have e : xs ++ [.p "?.", .ident n] = xs ++ [.p "?."] ++ [.ident n] := by simp
+  rw [e]
+  refine ⟨p2.conv (fun _ h => h) (fun σ h => ?_), ?_, ⟨.ident n, last_snoc _ _, rfl⟩⟩
+  · cases σ; simp [operandEnd, operandPos, qd]
+  · simp only [List.append_assoc]; exact first_q xs hx _
+
+/-- `f ?. ( args )` with a non-empty argument list -/
+theorem seg_qcall (fs as : List Tok) (hf : Seg fs) (ha : Seg as) :
+    Seg (fs ++ [.p "?."] ++ [.p "("] ++ as ++ [.p ")"]) := by
+  obtain ⟨b, hb, hbS⟩ := ha.first
+  obtain ⟨a2, ha2, ha2E⟩ := ha.last
+  have hbok : tokOk b = true := ha.piece.ok b (List.mem_of_mem_head? hb)
+  have p1 := Piece.append (piece_q fs hf) piece_lparen
+    (fun σ h => by have hfn : σ.fnHead = none := h.2.2.2; exact ⟨rfl, hfn⟩) (.p "?.") (.p "(") (last_snoc _ _) rfl
+    (by decide)
+  have p2 := Piece.append p1 ha.piece (fun σ h => ⟨rfl, rfl, rfl, rfl⟩) (.p "(") b (last_snoc _ _) hb
+    (adj_leader_S "(" (by decide) b hbok hbS)
+  have p3 := Piece.append p2 piece_rparen (fun σ h => rfl) a2 (.p ")")
+    (by rw [getLast?_append_ne _ _ ha.piece.ne]; exact ha2) rfl (adj_E_follower a2 ha2E ")" (by decide))
+  refine ⟨p3.conv (fun _ h => h) (fun σ h => ?_), ?_, ⟨.p ")", last_snoc _ _, rfl⟩⟩
+  · exact qparen_state σ (P0_fn h)
+  · simp only [List.append_assoc]; exact first_q fs hf _
+
+/-- `f ?. ( )` -/
+theorem seg_qcall0 (fs : List Tok) (hf : Seg fs) : Seg (fs ++ [.p "?."] ++ [.p "("] ++ [.p ")"]) := by
+  have p1 := Piece.append (piece_q fs hf) piece_lparen
+    (fun σ h => by have hfn : σ.fnHead = none := h.2.2.2; exact ⟨rfl, hfn⟩) (.p "?.") (.p "(") (last_snoc _ _) rfl
+    (by decide)
+  have p2 := Piece.append p1 piece_rparen (fun σ h => rfl) (.p "(") (.p ")") (last_snoc _ _) rfl (by decide)
+  refine ⟨p2.conv (fun _ h => h) (fun σ h => ?_), ?_, ⟨.p ")", last_snoc _ _, rfl⟩⟩
+  · exact qparen_state0 σ (P0_fn h)
+  · simp only [List.append_assoc]; exact first_q fs hf _
+
+/-- `x ?. [ y ]` -/
+theorem seg_qindex (xs ys : List Tok) (hx : Seg xs) (hy : Seg ys) :
+    Seg (xs ++ [.p "?."] ++ [.p "["] ++ ys ++ [.p "]"]) := by
+  obtain ⟨b, hb, hbS⟩ := hy.first
+  obtain ⟨a2, ha2, ha2E⟩ := hy.last
+  have hbok : tokOk b = true := hy.piece.ok b (List.mem_of_mem_head? hb)
+  have p1 := Piece.append (piece_q xs hx) piece_lbrack (fun σ h => trivial) (.p "?.") (.p "[") (last_snoc _ _) rfl
+    (by decide)
+  have p2 := Piece.append p1 hy.piece
+    (fun σ h => by have hfn : σ.fnHead = none := h.2.2.2; exact ⟨rfl, rfl, rfl, hfn⟩) (.p "[") b (last_snoc _ _) hb
+    (adj_leader_S "[" (by decide) b hbok hbS)
+  have p3 := Piece.append p2 piece_rbrack (fun σ h => trivial) a2 (.p "]")
+    (by rw [getLast?_append_ne _ _ hy.piece.ne]; exact ha2) rfl (adj_E_follower a2 ha2E "]" (by decide))
+  refine ⟨p3.conv (fun _ h => h) (fun σ h => ?_), ?_, ⟨.p "]", last_snoc _ _, rfl⟩⟩
+  · exact qbrack_state σ
+  · simp only [List.append_assoc]; exact first_q xs hx _
+
 /-! ## all trees of the grammar -/
 
 def litOk : Lit → Bool
@@ -808,6 +934,7 @@ def treeOk : E → Bool
   | .dot x n => treeOk x && identOk n
   | .index x y => treeOk x && treeOk y
   | .group x => treeOk x
+  | .opt _ e => treeOk e
 def treeOkL : List E → Bool
   | [] => true
   | a :: t => treeOk a && treeOkL t
@@ -884,19 +1011,43 @@ theorem last_not_plain (x : E) (hl : lvCall ≤ lvl x) (hn : ∀ k, x ≠ .lit (
     exact last_snoc _ _
   | index y z => exact ⟨.p "]", by simp only [yield]; exact last_snoc _ _, rfl⟩
   | group y => exact ⟨.p ")", by simp only [yield]; exact last_snoc _ _, rfl⟩
+  | opt a y => exact absurd hl (by simp [lvl]; decide)
+
+/-- the last token of an optional chain is `)`, `]` or a name: never a bare integer -/
+theorem last_opt_not_plain (x : E) (hl : x.isLink = true) :
+    ∃ a, (yieldOpt x).getLast? = some a ∧ plainInt a = false := by
+  cases x with
+  | call f args => exact ⟨.p ")", by simp only [yieldOpt]; exact last_snoc _ _, rfl⟩
+  | dot y n =>
+    refine ⟨.ident n, ?_, rfl⟩
+    have e : ∀ (l : List Tok) (q : Tok), l ++ [q, Tok.ident n] = (l ++ [q]) ++ [Tok.ident n] := by simp
+    simp only [yieldOpt]
+    split
+    · rw [e]; exact last_snoc _ _
+    · rw [e]; exact last_snoc _ _
+  | index y z => exact ⟨.p "]", by simp only [yieldOpt]; exact last_snoc _ _, rfl⟩
+  | _ => simp [E.isLink] at hl
+
+theorem isLink_of_chainVar (e : E) (a : String) (h : (e.chainVar? == some a) = true) : e.isLink = true := by
+  cases hl : e.isLink with
+  | true => rfl
+  | false => simp [E.chainVar?, hl] at h
 
 /-- **Theorem B, expression level**: the terminal string of every derivation tree of the expression grammar (with
     plain names and strings) is a well-formed expression segment — valid tokens, no unsafe adjacency, the goal
     tracker agrees at every token and is back in operator position with the same bracket stack at the end -/
-theorem yield_seg : ∀ e : E, gwfA e = true → treeOk e = true → Seg (yield e) := by
+theorem yield_seg_both : ∀ e : E, (gwfA e = true → treeOk e = true → Seg (yield e)) ∧
+    (e.isLink = true → gwfA e = true → treeOk e = true → Seg (yieldOpt e)) := by
   intro e
   induction e using Verif.Proofs.JsSemLemmas.E.ind with
   | hvar n =>
+    refine ⟨?_, fun h => by simp [E.isLink] at h⟩
     intro _ ht
     simp only [treeOk] at ht
     obtain ⟨hok, h1, h2, hstep⟩ := ident_facts n ht
     simpa [yield] using seg_atom (.ident n) hok rfl rfl hstep h1 h2
   | hlit l =>
+    refine ⟨?_, fun h => by simp [E.isLink] at h⟩
     intro _ ht
     cases l with
     | num k =>
@@ -919,9 +1070,10 @@ theorem yield_seg : ∀ e : E, gwfA e = true → treeOk e = true → Seg (yield 
         (fun σ nl => by rw [step_name σ nl (.kw "null") "null" rfl rfl, stepName_lit σ _ (by decide)])
         (by decide) (by decide)
   | hun op x ih =>
+    refine ⟨?_, fun h => by simp [E.isLink] at h⟩
     intro hg ht
     have hgx : gwfA x = true := by simp only [gwfA, Bool.and_eq_true] at hg; exact hg.2
-    have hx := ih hgx (by simpa [treeOk] using ht)
+    have hx := ih.1 hgx (by simpa [treeOk] using ht)
     have hpre : ∀ s, s ∈ ["!", "~", "+", "-", "++", "--"] → Seg (Tok.p s :: yield x) := fun s hs =>
       seg_prefix (.p s) _ hx (piece_prefix s hs)
         (by simp only [List.mem_cons, List.not_mem_nil, or_false] at hs; rcases hs with rfl | rfl | rfl | rfl | rfl | rfl <;> rfl)
@@ -947,11 +1099,12 @@ theorem yield_seg : ∀ e : E, gwfA e = true → treeOk e = true → Seg (yield 
     | postinc => simpa [yield, UOp.text] using seg_postfix _ "++" (by decide) hx
     | postdec => simpa [yield, UOp.text] using seg_postfix _ "--" (by decide) hx
   | hbin op x y ihx ihy =>
+    refine ⟨?_, fun h => by simp [E.isLink] at h⟩
     intro hg ht
     simp only [gwfA, Bool.and_eq_true] at hg
     simp only [treeOk, Bool.and_eq_true] at ht
-    have hx := ihx hg.1.2 ht.1
-    have hy := ihy hg.2 ht.2
+    have hx := ihx.1 hg.1.2 ht.1
+    have hy := ihy.1 hg.2 ht.2
     by_cases hw : op.isWord = true
     · have hk : op.text ∈ ["in", "instanceof"] := by cases op <;> first | (exact absurd hw (by decide)) | decide
       have := seg_infix _ _ (.kw op.text) hx hy (piece_kwbin op.text hk)
@@ -967,50 +1120,102 @@ theorem yield_seg : ∀ e : E, gwfA e = true → treeOk e = true → Seg (yield 
         (fun b hb hbS => adj_leader_S op.text h3 b hb hbS)
       simpa [yield, opTok, hw'] using this
   | hcond c x y ihc ihx ihy =>
+    refine ⟨?_, fun h => by simp [E.isLink] at h⟩
     intro hg ht
     simp only [gwfA, Bool.and_eq_true] at hg
     simp only [treeOk, Bool.and_eq_true] at ht
-    have := seg_cond _ _ _ (ihc hg.1.1.2 ht.1.1) (ihx hg.1.2 ht.1.2) (ihy hg.2 ht.2)
+    have := seg_cond _ _ _ (ihc.1 hg.1.1.2 ht.1.1) (ihx.1 hg.1.2 ht.1.2) (ihy.1 hg.2 ht.2)
     simpa [yield] using this
   | hcomma l ih =>
+    refine ⟨?_, fun h => by simp [E.isLink] at h⟩
     intro hg ht
     simp only [gwfA, Bool.and_eq_true, decide_eq_true_eq] at hg
     simp only [treeOk] at ht
     have hne : l ≠ [] := by intro e; subst e; simp at hg
-    have := seg_sep l hne (fun a ha => ih a ha (gwfAItems_mem l hg.2 a ha) (treeOkL_mem l ht a ha))
+    have := seg_sep l hne (fun a ha => (ih a ha).1 (gwfAItems_mem l hg.2 a ha) (treeOkL_mem l ht a ha))
     simpa [yield] using this
   | hcall f args ihf iha =>
-    intro hg ht
+    have first : gwfA (.call f args) = true → treeOk (.call f args) = true → Seg (yield (.call f args)) := by
+      intro hg ht
+      simp only [gwfA, Bool.and_eq_true] at hg
+      simp only [treeOk, Bool.and_eq_true] at ht
+      have hf := ihf.1 hg.1.2 ht.1
+      by_cases hargs : args = []
+      · subst hargs
+        simpa [yield, yieldSep] using seg_call0 _ hf
+      · have ha := seg_sep args hargs (fun a hm => (iha a hm).1 (gwfAItems_mem args hg.2 a hm) (treeOkL_mem args ht.2 a hm))
+        simpa [yield] using seg_call _ _ hf ha
+    refine ⟨first, ?_⟩
+    intro _ hg ht
     simp only [gwfA, Bool.and_eq_true] at hg
     simp only [treeOk, Bool.and_eq_true] at ht
-    have hf := ihf hg.1.2 ht.1
-    by_cases hargs : args = []
-    · subst hargs
-      simpa [yield, yieldSep] using seg_call0 _ hf
-    · have ha := seg_sep args hargs (fun a hm => iha a hm (gwfAItems_mem args hg.2 a hm) (treeOkL_mem args ht.2 a hm))
-      simpa [yield] using seg_call _ _ hf ha
+    by_cases hl : f.isLink = true
+    · have hf := ihf.2 hl hg.1.2 ht.1
+      by_cases hargs : args = []
+      · subst hargs
+        simpa [yieldOpt, yieldSep, hl] using seg_call0 _ hf
+      · have ha := seg_sep args hargs (fun a hm => (iha a hm).1 (gwfAItems_mem args hg.2 a hm) (treeOkL_mem args ht.2 a hm))
+        simpa [yieldOpt, hl] using seg_call _ _ hf ha
+    · have hf := ihf.1 hg.1.2 ht.1
+      by_cases hargs : args = []
+      · subst hargs
+        simpa [yieldOpt, yieldSep, hl] using seg_qcall0 _ hf
+      · have ha := seg_sep args hargs (fun a hm => (iha a hm).1 (gwfAItems_mem args hg.2 a hm) (treeOkL_mem args ht.2 a hm))
+        simpa [yieldOpt, hl] using seg_qcall _ _ hf ha
   | hdot x n ih =>
-    intro hg ht
+    have first : gwfA (.dot x n) = true → treeOk (.dot x n) = true → Seg (yield (.dot x n)) := by
+      intro hg ht
+      simp only [gwfA, Bool.and_eq_true, decide_eq_true_eq] at hg
+      simp only [treeOk, Bool.and_eq_true] at ht
+      by_cases hnum : ∃ k, x = .lit (.num k)
+      · obtain ⟨k, rfl⟩ := hnum
+        simpa [yield] using seg_numdot k n ht.2
+      · have hn : ∀ k, x ≠ .lit (.num k) := fun k e => hnum ⟨k, e⟩
+        have hx := ih.1 hg.2 ht.1
+        rw [yield_dot_gen x n hn]
+        exact seg_dot _ n hx (last_not_plain x hg.1 hn hx) ht.2
+    refine ⟨first, ?_⟩
+    intro _ hg ht
     simp only [gwfA, Bool.and_eq_true, decide_eq_true_eq] at hg
     simp only [treeOk, Bool.and_eq_true] at ht
-    by_cases hnum : ∃ k, x = .lit (.num k)
-    · obtain ⟨k, rfl⟩ := hnum
-      simpa [yield] using seg_numdot k n ht.2
-    · have hn : ∀ k, x ≠ .lit (.num k) := fun k e => hnum ⟨k, e⟩
-      have hx := ih hg.2 ht.1
-      rw [yield_dot_gen x n hn]
-      exact seg_dot _ n hx (last_not_plain x hg.1 hn hx) ht.2
+    by_cases hl : x.isLink = true
+    · have hx := ih.2 hl hg.2 ht.1
+      simpa [yieldOpt, hl] using seg_dot _ n hx (last_opt_not_plain x hl) ht.2
+    · have hx := ih.1 hg.2 ht.1
+      simpa [yieldOpt, hl] using seg_qdot _ n hx ht.2
   | hindex x y ihx ihy =>
-    intro hg ht
+    have first : gwfA (.index x y) = true → treeOk (.index x y) = true → Seg (yield (.index x y)) := by
+      intro hg ht
+      simp only [gwfA, Bool.and_eq_true] at hg
+      simp only [treeOk, Bool.and_eq_true] at ht
+      simpa [yield] using seg_index _ _ (ihx.1 hg.1.2 ht.1) (ihy.1 hg.2 ht.2)
+    refine ⟨first, ?_⟩
+    intro _ hg ht
     simp only [gwfA, Bool.and_eq_true] at hg
     simp only [treeOk, Bool.and_eq_true] at ht
-    simpa [yield] using seg_index _ _ (ihx hg.1.2 ht.1) (ihy hg.2 ht.2)
+    by_cases hl : x.isLink = true
+    · simpa [yieldOpt, hl] using seg_index _ _ (ihx.2 hl hg.1.2 ht.1) (ihy.1 hg.2 ht.2)
+    · simpa [yieldOpt, hl] using seg_qindex _ _ (ihx.1 hg.1.2 ht.1) (ihy.1 hg.2 ht.2)
   | hgroup x ih =>
+    refine ⟨?_, fun h => by simp [E.isLink] at h⟩
     intro hg ht
     simp only [gwfA] at hg
     simp only [treeOk] at ht
-    simpa [yield] using seg_group _ (ih hg ht)
+    simpa [yield] using seg_group _ (ih.1 hg ht)
+  | hopt a e ih =>
+    refine ⟨?_, fun h => by simp [E.isLink] at h⟩
+    intro hg ht
+    simp only [gwfA, Bool.and_eq_true] at hg
+    simp only [treeOk] at ht
+    simpa [yield] using ih.2 (isLink_of_chainVar e a hg.1) hg.2 ht
 
+/-- **Theorem B, expression level**: the terminal string of every derivation tree of the expression grammar (optional
+    chains included) is a well-formed expression segment -/
+theorem yield_seg (e : E) (hg : gwfA e = true) (ht : treeOk e = true) : Seg (yield e) := (yield_seg_both e).1 hg ht
+
+/-- the terminals of a chain written with `?.` at its innermost link form an expression segment as well -/
+theorem yieldOpt_seg (e : E) (hl : e.isLink = true) (hg : gwfA e = true) (ht : treeOk e = true) : Seg (yieldOpt e) :=
+  (yield_seg_both e).2 hl hg ht
 
 /-! ## `-->` at the start of a script -/
 
@@ -1026,6 +1231,91 @@ theorem isS_first (b : Tok) (hb : tokOk b = true) (hS : isS b = true) : firstC b
     rcases hcc with h | h
     · exact absurd h (by decide)
     · exact absurd h (by decide)
+
+/-- an optional chain has at least two tokens behind its root -/
+theorem yieldOpt_len2 (x : E) (hl : x.isLink = true) : 2 ≤ (yieldOpt x).length := by
+  cases x with
+  | call f args => simp only [yieldOpt, List.length_append, List.length_cons, List.length_nil]; omega
+  | dot y n =>
+    simp only [yieldOpt]
+    split <;> simp only [List.length_append, List.length_cons, List.length_nil] <;> omega
+  | index y z => simp only [yieldOpt, List.length_append, List.length_cons, List.length_nil]; omega
+  | _ => simp [E.isLink] at hl
+
+/-- the first token of a member / call / primary expression that is no link: a name, a literal or `(` -/
+theorem head_primary (x : E) (hl : lvCall ≤ lvl x) (hnl : x.isLink = false) :
+    yield x ≠ [] ∧ (yield x).head? ≠ some (.p "--") := by
+  cases x with
+  | var n => simp [yield]
+  | lit l => cases l <;> simp [yield]
+  | unary op x => simp [lvl, lvCall, lvUpdate, lvUnary] at hl; split at hl <;> omega
+  | bin op x y =>
+    have : ∀ o : BOp, ¬ lvCall ≤ opLevel o := by intro o; cases o <;> decide
+    exact absurd hl (this op)
+  | cond c x y => exact absurd hl (by simp [lvl]; decide)
+  | comma l => exact absurd hl (by simp [lvl]; decide)
+  | call f args => simp [E.isLink] at hnl
+  | dot y n => simp [E.isLink] at hnl
+  | index y z => simp [E.isLink] at hnl
+  | group y => simp [yield]
+  | opt a y => exact absurd hl (by simp [lvl]; decide)
+
+/-- an optional chain does not start with `--` -/
+theorem yieldOpt_head : ∀ e : E, e.isLink = true → gwfA e = true → treeOk e = true →
+    (yieldOpt e).head? ≠ some (.p "--") := by
+  intro e
+  induction e using Verif.Proofs.JsSemLemmas.E.ind with
+  | hcall f args ihf _ =>
+    intro _ hg ht
+    simp only [gwfA, Bool.and_eq_true, decide_eq_true_eq] at hg
+    simp only [treeOk, Bool.and_eq_true] at ht
+    by_cases hl : f.isLink = true
+    · have hne := (yieldOpt_seg f hl hg.1.2 ht.1).piece.ne
+      simp only [yieldOpt, hl, if_true, List.append_assoc]
+      rw [head?_append_ne _ _ hne]
+      exact ihf hl hg.1.2 ht.1
+    · have hp := head_primary f hg.1.1 (by simpa using hl)
+      simp only [yieldOpt, hl]
+      rw [if_neg (by simp)]
+      simp only [List.append_assoc]
+      rw [head?_append_ne _ _ hp.1]
+      exact hp.2
+  | hdot x n ih =>
+    intro _ hg ht
+    simp only [gwfA, Bool.and_eq_true, decide_eq_true_eq] at hg
+    simp only [treeOk, Bool.and_eq_true] at ht
+    by_cases hl : x.isLink = true
+    · have hne := (yieldOpt_seg x hl hg.2 ht.1).piece.ne
+      simp only [yieldOpt, hl, if_true]
+      rw [head?_append_ne _ _ hne]
+      exact ih hl hg.2 ht.1
+    · have hp := head_primary x hg.1 (by simpa using hl)
+      simp only [yieldOpt, hl]
+      rw [if_neg (by simp), head?_append_ne _ _ hp.1]
+      exact hp.2
+  | hindex x y ihx _ =>
+    intro _ hg ht
+    simp only [gwfA, Bool.and_eq_true, decide_eq_true_eq] at hg
+    simp only [treeOk, Bool.and_eq_true] at ht
+    by_cases hl : x.isLink = true
+    · have hne := (yieldOpt_seg x hl hg.1.2 ht.1).piece.ne
+      simp only [yieldOpt, hl, if_true, List.append_assoc]
+      rw [head?_append_ne _ _ hne]
+      exact ihx hl hg.1.2 ht.1
+    · have hp := head_primary x hg.1.1 (by simpa using hl)
+      simp only [yieldOpt, hl]
+      rw [if_neg (by simp)]
+      simp only [List.append_assoc]
+      rw [head?_append_ne _ _ hp.1]
+      exact hp.2
+  | hvar n => intro h; simp [E.isLink] at h
+  | hlit l => intro h; simp [E.isLink] at h
+  | hun op x _ => intro h; simp [E.isLink] at h
+  | hbin op x y _ _ => intro h; simp [E.isLink] at h
+  | hcond c x y _ _ _ => intro h; simp [E.isLink] at h
+  | hcomma l _ => intro h; simp [E.isLink] at h
+  | hgroup x _ => intro h; simp [E.isLink] at h
+  | hopt a e _ => intro h; simp [E.isLink] at h
 
 /-- a tree whose terminal string is a single token is a variable or a literal: that token is no punctuator -/
 theorem single_not_punct (e : E) (hg : gwfA e = true) (ht : treeOk e = true) (t : Tok) (h : yield e = [t]) :
@@ -1091,6 +1381,12 @@ theorem single_not_punct (e : E) (hg : gwfA e = true) (ht : treeOk e = true) (t 
     simp only [yield, List.append_assoc, List.singleton_append] at h
     exact absurd h (len2 _ _ _ hx)
   | group x => simp [yield] at h
+  | opt a x =>
+    simp only [gwfA, Bool.and_eq_true] at hg
+    have hl := isLink_of_chainVar x a hg.1
+    have h2 := yieldOpt_len2 x hl
+    simp only [yield] at h
+    rw [h] at h2; simp at h2
 
 theorem headOk_append (xs ys : List Tok) (h : headOk xs = true) (h2 : 2 ≤ xs.length) : headOk (xs ++ ys) = true := by
   match xs, h, h2 with
@@ -1245,5 +1541,11 @@ theorem yield_headOk : ∀ e : E, gwfA e = true → treeOk e = true → headOk (
         have := single_not_punct x hg.1.2 ht.1 a hq
         exact headOk_of_first _ (by simp; exact fun e => this "--" e)
       | cons b r' => rw [← hq]; exact headOk_append _ _ (ihx hg.1.2 ht.1) (by rw [hq]; simp)
+  | hopt a e _ =>
+    intro hg ht
+    simp only [gwfA, Bool.and_eq_true] at hg
+    simp only [treeOk] at ht
+    simp only [yield]
+    exact headOk_of_first _ (yieldOpt_head e (isLink_of_chainVar e a hg.1) hg.2 ht)
 
 end Verif.Proofs.C09JsTree
